@@ -184,6 +184,22 @@ def err_arm_returns_err(fn, err_target):
     return ok, ("ok" if ok else "a path from the Err arm returns without an Err value")
 
 
+
+def _or_else_keeps_failing(fn, c):
+    """the closure given to Result::or_else only converts the error (every value it returns is an `Err(..)`)"""
+    from .facts import norm_path
+    if len(c.args) < 2:
+        return False
+    for o in flow.origins(fn, c.args[1]):
+        if o.kind == "agg" and o.rv.get("closure"):
+            cl = fn.prog.fns.get(norm_path(o.rv["closure"]))
+            if cl is None:
+                return False
+            rets = flow.origins(cl, 0)
+            return bool(rets) and all(r.kind == "agg" and r.rv.get("variant") == "Err" for r in rets)
+    return False
+
+
 def disposition(fn, call, _seen=None, _depth=0):
     """how the Result produced by `call` is consumed: list of (kind, detail, bb)
        kinds: 'returned' | 'propagated' | 'swallowed' | 'panics' | 'dropped' | 'matched-not-propagated' | 'escapes'"""
@@ -210,7 +226,10 @@ def disposition(fn, call, _seen=None, _depth=0):
             ok, why = err_arm_returns_err(fn, e)
             out.append(("propagated" if ok else "matched-not-propagated", why, e))
     for c in sp.consumers:
-        if c.name in PASS_THROUGH or c.name.endswith("::Try>::branch"):
+        if c.name == "core::result::Result::or_else" and not _or_else_keeps_failing(fn, c):
+            # `res.or_else(|_| second_attempt())`: the error is answered with another attempt, whose result replaces it
+            out.append(("swallowed", c.name + " with a closure that can succeed", c.bb))
+        elif c.name in PASS_THROUGH or c.name.endswith("::Try>::branch"):
             out += disposition(fn, c, _seen, _depth + 1)
         elif c.name in SWALLOW:
             out.append(("swallowed", c.name, c.bb))
